@@ -511,7 +511,10 @@ mod imp {
         }
         let fo = file.map(|f| FileOffset::new(f, offset));
         let mut range = MmapRange::new(size, fo, GuestAddress(guest_base), word, 11);
-        let flags_val = libc::MAP_SHARED | if map_fixed { libc::MAP_FIXED } else { 0 };
+        // explicit flag words with and without MAP_SHARED (the foreign / grant paths add what they
+        // need themselves; the region reports what was asked)
+        let flags_base = t.pick(&[libc::MAP_SHARED, libc::MAP_SHARED, libc::MAP_SHARED | libc::MAP_NORESERVE, libc::MAP_PRIVATE, libc::MAP_NORESERVE, 0]);
+        let flags_val = flags_base | if map_fixed { libc::MAP_FIXED } else { 0 };
         if explicit || map_fixed {
             range.set_flags(flags_val);
             range.set_prot(libc::PROT_READ | libc::PROT_WRITE);
@@ -548,9 +551,10 @@ mod imp {
         let r = MmapRegion::<()>::from_range(range);
         let log = interpose::take();
         match r {
-            Err(e) if must_fail.is_empty() && unix && (!with_file || offset % PS as u64 != 0) && ename(&e) == "Mmap" => {
+            Err(e) if must_fail.is_empty() && ((unix && (!with_file || offset % PS as u64 != 0)) || (explicit && flags_val & (libc::MAP_SHARED | libc::MAP_PRIVATE) == 0)) && ename(&e) == "Mmap" => {
                 // a UNIX-type range without a file and with the default (shared, non-anonymous)
-                // flags, or with a file offset that is not a multiple of the page size, is
+                // flags, or with a file offset that is not a multiple of the page size, or any
+                // request whose explicit flag word names neither MAP_SHARED nor MAP_PRIVATE, is
                 // refused by the OS itself
                 let _ = interpose::end();
                 cx.label("refused_by_os");
@@ -571,7 +575,7 @@ mod imp {
                 let want_flags = if explicit { flags_val } else { libc::MAP_NORESERVE | libc::MAP_SHARED };
                 ensure!(region.flags() == want_flags, "flags() = {:#x}, asked {:#x}", region.flags(), want_flags);
                 ensure!(region.file_offset().map(|f| f.start()) == if with_file { Some(offset) } else { None }, "file_offset() mismatch");
-                if let (true, Some(d)) = (unix, &dup) {
+                if let (true, Some(d)) = (unix && region.flags() & libc::MAP_SHARED != 0, &dup) {
                     // shared file-backed region: byte i of the region is byte offset+i of the file
                     use vm_memory::{Bytes, VolatileMemory};
                     cx.nt("xen_unix_file_contents");
@@ -603,7 +607,7 @@ mod imp {
     fn gen_c15_words(_t: Tier) -> Box<dyn Iterator<Item = Vec<u64>>> {
         // every low flag word (and three with unknown bits) x file x offset x MAP_FIXED x explicit
         Box::new((0..19u64).flat_map(|w| {
-            (0..2u64).flat_map(move |f| (0..7u64).flat_map(move |o| (0..4u64).flat_map(move |fx| (0..2u64).flat_map(move |ex| (0..4u64).map(move |sz| vec![w, f, o, fx, ex, sz, 0])))))
+            (0..2u64).flat_map(move |f| (0..7u64).flat_map(move |o| (0..4u64).flat_map(move |fx| (0..2u64).flat_map(move |ex| (0..4u64).flat_map(move |sz| (0..if ex == 1 { 6u64 } else { 1 }).map(move |fl| vec![w, f, o, fx, ex, sz, 0, fl]))))))
         }))
     }
 
